@@ -12,7 +12,7 @@
 
 //! Restore from the archive to the filesystem.
 
-use std::collections::HashMap;
+use std::collections::{HashMap, HashSet};
 use std::fs::{File, create_dir_all};
 use std::io::{self, Write};
 use std::path::{Path, PathBuf};
@@ -99,8 +99,25 @@ pub async fn restore(
         monitor.clone(),
     );
     let mut deferrals = Vec::new();
+    // Symlinks restored so far. A version stitched together from an interrupted backup and an
+    // earlier one can list a symlink and also, from the earlier version in which that path was
+    // still a directory, entries below it. Restoring those would write through the link,
+    // possibly outside the destination, so they are reported and skipped.
+    let mut restored_symlinks: HashSet<Apath> = HashSet::new();
     while let Some(entry) = stitch.next().await {
         task.set_name(format!("Restore {}", entry.apath));
+        if let Some(link) = restored_symlinks
+            .iter()
+            .find(|link| **link != entry.apath && link.is_prefix_of(&entry.apath))
+        {
+            monitor.error(Error::InvalidMetadata {
+                details: format!(
+                    "Not restoring {:?} because {:?} was restored as a symlink",
+                    entry.apath, link
+                ),
+            });
+            continue;
+        }
         let path = destination.join(&entry.apath[1..]);
         match entry.kind() {
             Kind::Dir => {
@@ -137,6 +154,7 @@ pub async fn restore(
                     monitor.error(err);
                     continue;
                 }
+                restored_symlinks.insert(entry.apath.clone());
             }
             Kind::Unknown => {
                 monitor.error(Error::InvalidMetadata {
